@@ -24,8 +24,8 @@ from sim import repo, world
 
 LIST_OBS = ["getitem", "getitem", "slice", "slice", "len", "bool", "contains", "eq_list", "eq_lazy", "count",
             "reversed", "iterate", "listify", "copy", "iter", "force", "h_has_ind", "h_concat", "h_scalarify", "h_iterable",
-            "mkslice", "mkrev", "mkadd"]
-REPRS = ["list", "gen", "iter", "range", "map", "tuple", "lazy", "lazycopy", "filter", "zip"]
+            "mkslice", "mkrev", "mkadd", "order"]
+REPRS = ["list", "gen", "iter", "range", "map", "tuple", "lazy", "lazycopy", "filter", "zip", "flagged"]
 BIG = 3333333333333333
 ITEM_POOLS = {
     "eq": [1, 1, 1, 2],
@@ -186,6 +186,18 @@ class C13(core.Check):
                     elif r < 0.5 and other and pool:
                         other[rs.randrange(len(other))] = rs.choice(pool)
                     events.append([k, h, "new", other])
+            elif k == "order":
+                # ordering against a lazy list over a related integer list (both sides must be non-empty lists of ints)
+                other = [x for x in src if isinstance(x, int)] or [0]
+                r = rs.random()
+                if r < 0.3:
+                    other = other[:-1] or [0]
+                elif r < 0.5:
+                    other = other + [rs.randint(0, 2)]
+                elif r < 0.7:
+                    j = rs.randrange(len(other))
+                    other[j] += rs.choice([-1, 1])
+                events.append([k, h, rs.choice(["lt", "le", "gt", "ge"]), other, rs.random() < 0.4])
             elif k == "copy":
                 events.append([k, h, nxt])
                 lists.append(nxt)
@@ -266,6 +278,8 @@ class C13(core.Check):
             return LL(LL(items()))                       # a lazy list over another lazy list
         if rep == "lazycopy":
             return self.deep_copy(LL(iter(items())))     # what `:` leaves on the stack
+        if rep == "flagged":
+            return LL(iter(items()), isinf=True)          # several elements flag a list infinite although its source ends
         raise ValueError(rep)
 
     def tm(self, v):
@@ -374,7 +388,16 @@ class C13(core.Check):
                     want, got = int(bool(msrc)), int(bool(h))
                 elif kind == "contains":
                     x = mval(ev[2])
+                    if getattr(h, "infinite", False):
+                        judge = False  # on a list flagged infinite, membership is a monotone search by design
                     want, got = int(x in msrc), int(bool(self.vy(x) in h))
+                elif kind == "order":
+                    op, other, flagged = ev[2], [mval(o) for o in ev[3]], ev[4]
+                    if not msrc or not other or not all(isinstance(x, int) for x in msrc + other):
+                        continue
+                    o = LazyList(iter(list(other)), isinf=True) if flagged else LazyList(list(other))
+                    want = int({"lt": msrc < other, "le": msrc <= other, "gt": msrc > other, "ge": msrc >= other}[op])
+                    got = int(bool({"lt": lambda: h < o, "le": lambda: h <= o, "gt": lambda: h > o, "ge": lambda: h >= o}[op]()))
                 elif kind == "eq_list":
                     other = [mval(o) for o in ev[2]]
                     want, got = int(msrc == other), int(bool(h == self.vy(other)))
@@ -443,8 +466,8 @@ class C13(core.Check):
                     continue
             except Exception as e:  # the list model never raises on a judged observation
                 log.append(dict(ev=ev, st=st, raised=repr(e)))
-                if not judge and kind in ("getitem",):
-                    continue
+                if not judge:
+                    continue  # an observation the statement does not define may raise
                 if culprit is None and not cache_ok():
                     culprit = f"{kind}:{arg_class(ev, n)}"
                 return fail("raises", ev, st, repr(e), want, n)
